@@ -404,7 +404,7 @@ def fill_history(rng, limit, shm, cycles, per_cycle):
         h.append("stats")
         if rng.random() < 0.7:
             h.append("clear")
-    return h + census_lines(keys[-40:])
+    return h + census_lines(keys)
 
 
 def check_census(cases, raw, hist_of):
@@ -415,17 +415,28 @@ def check_census(cases, raw, hist_of):
     i = 0
     n = len(cases)
     cases = [bare(c) if c.startswith("@") else c for c in cases]
+    stored = set()
     while i < n:
+        w0 = cases[i].split()
+        if w0 and w0[0] == "new":
+            stored = set()
+        elif w0 and w0[0] == "store" and len(w0) > 2:
+            stored.add(w0[2])
         if cases[i] == "stats" and i + 1 < n and cases[i + 1].startswith(f"fetch {FAR_PAST} "):
             w = raw[i].split() if i < len(raw) else []
             j = i + 1
             hits = links = 0
+            asked = set()
             while j < n and cases[j].startswith(f"fetch {FAR_PAST} "):
+                asked.add(cases[j].split()[2])
                 o = raw[j].split() if j < len(raw) else []
                 if o and o[0] == "hit":
                     hits += 1
                     links += 0 if o[2] == "-" else len(o[2].split(","))
                 j += 1
+            if not stored <= asked:
+                i = j       # not a complete census (some key that was stored is not asked for): nothing to conclude
+                continue
             try:
                 keys, tr = int(w[w.index("|") + 1]), int(w[w.index("|") + 2])
                 if (keys, tr) != (hits, links):
